@@ -203,6 +203,9 @@ static void report_uninstantiable(const char* prog)
 {
     each_limb<D, S>([&](auto Lc) {
         constexpr int L = decltype(Lc)::value;
+#if !defined(CNL_INT128_ENABLED)
+        if constexpr (L == 64) return;  // -std=c++20: no double-limb type for 64-bit limbs, the vendored class documents that
+#endif
         if constexpr (c10_is_bad(D, S, L)) {
             vf::counted(true);
             vf::outcome("type_does_not_instantiate");
@@ -461,8 +464,13 @@ template<int D, bool S>
 // ---------------------------------------------------------------------------------------------
 // unary operators, shifts, conversions, text, numeric_limits
 
+#if defined(CNL_INT128_ENABLED)
 using WideToInts = types<bool, i8, u8, i16, u16, i32, u32, i64, u64, i128, u128>;
 using WideFromInts = types<i8, u8, i16, u32, i64, u64, i128, u128>;
+#else  // -std=c++20: __int128 is not an integer type to the library
+using WideToInts = types<bool, i8, u8, i16, u16, i32, u32, i64, u64>;
+using WideFromInts = types<i8, u8, i16, u32, i64, u64>;
+#endif
 
 template<int D, bool S>
 [[gnu::noinline]] static void prog_wide_unary()
@@ -667,7 +675,7 @@ template<int D, bool S>
                     if (!(g == e.nearest)) {
                         vf::outcome("wrong_value");
                         const char* how = e.exact ? "exactly_representable" : (e.overflow ? "beyond_largest_finite" : (g == e.toward_zero ? "inexact/adjacent_toward_zero_instead_of_nearest" : (g == away ? "inexact/adjacent_away_from_zero_instead_of_nearest" : "inexact/not_adjacent")));
-                        vf::violation(std::string("to_float/value/") + how + "/" + vf::tn<F>() + ls, id(), rname<W>() + " a=" + hex(a) + " static_cast<" + vf::tn<F>() + "> = " + vf::to_s(g) + ", correctly rounded " + vf::to_s(e.nearest) + ", truncated " + vf::to_s(e.toward_zero));
+                        vf::violation(std::string("to_float/value/") + how + "/" + vf::tn<F>(), id(), rname<W>() + " a=" + hex(a) + " static_cast<" + vf::tn<F>() + "> = " + vf::to_s(g) + ", correctly rounded " + vf::to_s(e.nearest) + ", truncated " + vf::to_s(e.toward_zero));
                     } else
                         vf::outcome(e.exact ? "ok_to_float_exact" : (e.overflow ? "ok_to_float_overflows_to_inf" : "ok_to_float_correctly_rounded"));
                 }
@@ -909,7 +917,7 @@ constexpr IllFormed c10_ill_formed[] = {C10_ILL_FORMED{nullptr, nullptr}};
                     constexpr int dg = 200;
                     constexpr bool sg = WS || vals::is_signed_v<X>;
                     std::string what = std::string(wname) + " op " + vf::tn<X>();
-                    std::string cls = std::string(WS ? "wide_signed" : "wide_unsigned") + "/builtin_" + vf::tn<X>() + (a.neg ? "/wide_negative" : "") + (xv.neg ? "/builtin_negative" : "");
+                    std::string cls = std::string(WS ? "wide_signed" : "wide_unsigned") + (vals::is_signed_v<X> ? "/builtin_signed" : "/builtin_unsigned") + (a.neg ? "/wide_negative" : "") + (xv.neg ? "/builtin_negative" : "");
                     // a negative operand entering an unsigned result is outside "common signedness"
                     if (!sg && (a.neg || xv.neg)) {
                         vf::skip_pre();
